@@ -178,6 +178,24 @@ pub fn heavy_strings(k: usize, omega: usize) -> Vec<HintStr> {
         }
         v
     };
+    // runaway family: index bytes strictly increasing through the whole section and count bytes far above omega,
+    // so that a decoder whose count <= omega guard is missing or late walks Index past the end of y
+    for (nm, c0) in [("200+", 200u8), ("255", 255u8), ("omega+k", (omega + k) as u8), ("omega+k+1", (omega + k + 1) as u8)] {
+        let mut y = vec![0u8; omega + k];
+        for (i, b) in y.iter_mut().enumerate().take(omega) {
+            *b = i as u8;
+        }
+        for i in 0..k {
+            y[omega + i] = if nm == "200+" { c0 + i as u8 } else { c0 };
+        }
+        out.push(HintStr { class: format!("W:runaway-count={nm}"), y: y.clone() });
+        // same, but only the last polynomial's count is over-large
+        let mut y2 = y.clone();
+        for i in 0..k - 1 {
+            y2[omega + i] = ((i + 1) * (omega / k)) as u8;
+        }
+        out.push(HintStr { class: format!("W:runaway-last-count={nm}"), y: y2 });
+    }
     for total in [omega - 1, omega] {
         for (sname, counts) in splits(total) {
             if counts.iter().any(|&c| c > 256) {
